@@ -105,3 +105,29 @@ Example C01_example_float_ok :
   comparable ex_float (VF 1065353216) = true /\
   d_try_new (the_lib ex_float) ex_float (VF 1065353216) = Ok (VF 1065353216).
 Proof. vm_compute. auto. Qed.
+
+(* --- the recorded finding float_nan_passes_bounds, characterised exactly --------------------
+   for a NaN the bound validators are transparent: the outcome is decided by the first `finite`
+   or rejecting predicate in written order, and a NaN is accepted although the rules' meaning
+   excludes it exactly when no such validator exists and some bound is declared *)
+From NV Require Import Lemmas.NanLemmas.
+Theorem C01_nan_outcome :
+  forall (lib : fnlib) (d : decl) (is64 : bool) (vs : list validator) (x : Z),
+    d_family d = FFloat is64 -> d_sans d = [] -> d_validation d = Some (RVStandard vs) ->
+    f_is_nan is64 x = true ->
+    d_try_new lib d (VF x) =
+    match first_nan_violation lib vs (VF x) with
+    | None => Ok (VF x)
+    | Some k => Err (EVariant k)
+    end.
+Proof. exact try_new_nan. Qed.
+Print Assumptions C01_nan_outcome.
+
+Theorem C01_nan_finding_exact :
+  forall (lib : fnlib) (d : decl) (is64 : bool) (vs : list validator) (x : Z),
+    d_family d = FFloat is64 -> d_sans d = [] -> d_validation d = Some (RVStandard vs) ->
+    f_is_nan is64 x = true ->
+    (d_try_new lib d (VF x) = Ok (VF x) /\ spec_valid lib d (VF x) = false) <->
+    (existsb (stops_nan lib (VF x)) vs = false /\ existsb is_bound vs = true).
+Proof. exact nan_accepted_invalid_iff. Qed.
+Print Assumptions C01_nan_finding_exact.
